@@ -743,16 +743,27 @@ def drift_rules(chk, S, r5):
                 ssm = it.instantiate(cv, [], {}, "<harness>")
                 got = []
 
-                def hook(itp, fn, a, kw, site, _g=got):
+                got_kw = []
+
+                def hook(itp, fn, a, kw, site, _g=got, _k=got_kw):
                     _g.append(a[1])
+                    _k.append((a[2:], kw))
                     return T.atom("prior")
 
                 it.method_hooks[DENSE + ".state_space_model_dense.prior_exponential"] = hook
                 it.method_hooks[DENSE + ".state_space_model_dense.prior_exponential_diffuse"] = hook
-                call(it, method(it, ssm, base_name + variant), *args, diffuse_derivatives=diffuse)
+                user_kw = {"diffuse_eps": A("user_diffuse_eps"), "output_scale": A("user_output_scale")}
+                if not variant:
+                    user_kw.update(is_exact=A("user_is_exact"), inexact_eps=A("user_inexact_eps"))
+                call(it, method(it, ssm, base_name + variant), *args, diffuse_derivatives=diffuse, **user_kw)
                 S.absorb(it)
                 if len(got) != 1 or not isinstance(got[0], Rec):
                     raise AnalysisError(f"{base_name}{variant}: ODE handed to prior_exponential not captured")
+                # the constructor only adds the drift: coefficients and every option of the caller reach the exponential prior unchanged
+                pos, kw_ = got_kw[0]
+                okf = list(pos) == list(args[1:]) and kw_.get("diffuse_derivatives") == diffuse and all(kw_.get(k_) is v_ for k_, v_ in user_kw.items())
+                r5.require(okf, f"{base_name}{variant} forwards the caller's coefficients and options (diffuse={diffuse})", "tcoeffs[, std], is_exact, inexact_eps, diffuse_derivatives, diffuse_eps, output_scale unchanged",
+                           f"prior_exponential{variant} receives {T.show(pos, 2)} and {{{', '.join(f'{k_}: {T.show(v_, 2)}' for k_, v_ in kw_.items())}}}; a dropped output_scale makes the prior ignore the base scale", API, {"constructor": base_name + variant, "diffuse_derivatives": diffuse})
                 ode = got[0]
                 odes[(variant, diffuse)] = (ode, it)
                 k = 3 + diffuse
